@@ -6,6 +6,7 @@
 #include <polynomials.h>
 #include <polynomials_arithmetic.h>
 #include <lagrangehalfc_arithmetic.h>
+#include <semaphore.h>
 
 using namespace vf;
 static const int N = 1024;
@@ -146,8 +147,47 @@ static void lagrange_ops(Polys &P) {
     }
 }
 
+// thread lifetimes: in a process that has not used an FFT yet, the products of a thread must be exact whichever thread used the FFT first and
+// whether that thread is still alive (each case runs in a child forked before the harness touches the FFT)
+#include <pthread.h>
+struct TL { int id; int phases; int64_t err; sem_t go[2], done[2], bye; };
+static int64_t one_product(uint64_t seed) {
+    IntPolynomial *a = new_IntPolynomial(N); TorusPolynomial *b = new_TorusPolynomial(N), *r = new_TorusPolynomial(N); std::vector<Torus32> w(N);
+    int_pattern(a->coefs, 5, 512, seed); torus_pattern(b->coefsT, 4, seed); ref::negacyclic_mul_fast(w.data(), a->coefs, b->coefsT, N);
+    torusPolynomialMultFFT(r, a, b); int64_t d = maxdiff(r->coefsT, w.data()); delete_IntPolynomial(a); delete_TorusPolynomial(b); delete_TorusPolynomial(r); return d;
+}
+static void *tl_body(void *p) { TL *t = (TL *)p; for (int ph = 0; ph < t->phases; ph++) { sem_wait(&t->go[ph]); int64_t e = one_product(10 * t->id + ph); if (e > t->err) t->err = e; sem_post(&t->done[ph]); } sem_wait(&t->bye); return nullptr; } // stays alive (with its per-thread FFT state) until told to exit
+static void tl_start(TL &t, pthread_t &th, int id, int phases) { t.id = id; t.phases = phases; t.err = 0; for (int q = 0; q < 2; q++) { sem_init(&t.go[q], 0, 0); sem_init(&t.done[q], 0, 0); } sem_init(&t.bye, 0, 0); pthread_create(&th, nullptr, tl_body, &t); }
+static void tl_exit(TL &t, pthread_t th) { sem_post(&t.bye); pthread_join(th, nullptr); }
+static void tl_step(TL &t, int ph) { sem_post(&t.go[ph]); sem_wait(&t.done[ph]); }
+static void thread_lifetimes() {
+    static const char *NAMES[] = {"worker-then-main", "worker-then-worker", "A-first,B-uses,A-exits,B-uses-again", "main-then-worker-then-main", "A-first,B-uses,C-uses,A-exits,C-exits,B-uses-again", "A-first,main-uses,A-exits,main-uses-again", "B-first,A-uses,B-exits,new-thread-uses,A-uses-again"};
+    for (int sc = 0; sc < 7; sc++) {
+        std::string key = fmt("thread-lifetime/%s", NAMES[sc]);
+        if (!take(key)) continue; if (deadline()) return; current(key);
+        Fate f = forked([&] {
+            int64_t worst = 0; TL a, b, c; pthread_t ta, tb, tc;
+            auto run1 = [&](int id) { TL t; pthread_t th; tl_start(t, th, id, 1); tl_step(t, 0); tl_exit(t, th); if (t.err > worst) worst = t.err; };
+            switch (sc) {
+                case 0: run1(1); worst = std::max(worst, one_product(2)); break;
+                case 1: run1(1); run1(2); run1(3); break;
+                case 2: tl_start(a, ta, 1, 1); tl_start(b, tb, 2, 2); tl_step(a, 0); tl_step(b, 0); tl_exit(a, ta); tl_step(b, 1); tl_exit(b, tb); worst = std::max(a.err, b.err); break;
+                case 3: worst = std::max(worst, one_product(1)); run1(2); worst = std::max(worst, one_product(3)); break;
+                case 4: tl_start(a, ta, 1, 1); tl_start(b, tb, 2, 2); tl_start(c, tc, 3, 1); tl_step(a, 0); tl_step(b, 0); tl_step(c, 0); tl_exit(a, ta); tl_exit(c, tc); tl_step(b, 1); tl_exit(b, tb); worst = std::max(a.err, std::max(b.err, c.err)); break;
+                case 5: tl_start(a, ta, 1, 1); tl_step(a, 0); worst = std::max(worst, one_product(7)); tl_exit(a, ta); worst = std::max(worst, std::max(a.err, one_product(8))); break;
+                default: tl_start(a, ta, 1, 2); tl_start(b, tb, 2, 1); tl_step(b, 0); tl_step(a, 0); tl_exit(b, tb); run1(4); tl_step(a, 1); tl_exit(a, ta); worst = std::max(worst, std::max(a.err, b.err)); break;
+            }
+            if (worst > 2) violation(key, fmt("torusPolynomialMultFFT error %lld units (allowed 2) in the thread history %s", (long long)worst, NAMES[sc]));
+            eval(3); nontrivial(1); outcome(mix(sc, worst));
+        }, 120);
+        if (f.died()) violation(key, "process terminated in this thread history: " + fate_str(f) + " " + f.text.substr(0, 300));
+    }
+    sample("thread-lifetime/A-first,B-uses,A-exits,B-uses-again: thread A is the first FFT user of the process, thread B multiplies while A is alive, A exits, B multiplies again: all products within 2 units of the exact product");
+}
+
 int main(int argc, char **argv) {
     init(argc, argv);
+    if (opt("part", "all") == "all" || opt("part", "all") == "threads") { thread_lifetimes(); if (opt("part", "all") == "threads") return finish(); }
     Polys P; P.a = new_IntPolynomial(N); P.b = new_TorusPolynomial(N); P.r = new_TorusPolynomial(N); P.r2 = new_TorusPolynomial(N); P.want = new_TorusPolynomial(N); P.L = new_LagrangeHalfCPolynomial_array(4, N);
     std::string part = opt("part", "all");
     if (part == "all" || part == "patterns") { patterns(P); lagrange_ops(P); }
